@@ -67,6 +67,30 @@ impl RlteCatalog {
 
     // ── numeric helpers ───────────────────────────────────────────────────────
 
+    /// What the ladder values of a field look like across all zones.
+    fn ladder_kind(&self, field: &str) -> LadderKind {
+        let Some(cf) = self.fields.get(field) else {
+            return LadderKind::Text;
+        };
+        let (mut unsigned, mut other_number, mut text) = (false, false, false);
+        for (_zk, ladder) in &cf.ladders {
+            for v in ladder {
+                if v.parse::<u64>().is_ok() {
+                    unsigned = true;
+                } else if v.parse::<f64>().is_ok() {
+                    other_number = true;
+                } else {
+                    text = true;
+                }
+            }
+        }
+        match (unsigned, other_number, text) {
+            (true, false, false) => LadderKind::Unsigned,
+            (false, false, _) => LadderKind::Text,
+            _ => LadderKind::Mixed,
+        }
+    }
+
     /// Parse ladder into sorted numeric values (u64). Returns empty vec if none parse.
     fn ladder_as_numbers(ladder: &[String]) -> Vec<u64> {
         let mut nums: Vec<u64> = Vec::with_capacity(ladder.len());
@@ -528,6 +552,16 @@ fn greedy_cutoff_string(
 // Public planner entry
 // ──────────────────────────────────────────────────────────────────────────────
 
+#[derive(Clone, Copy, PartialEq, Eq, Debug)]
+enum LadderKind {
+    /// every numeric ladder value is an unsigned integer (what the numeric planner understands)
+    Unsigned,
+    /// negative or fractional numbers, or unsigned integers next to text: neither planner orders these
+    Mixed,
+    /// no numeric ladder value at all
+    Text,
+}
+
 pub struct PlannerOutput {
     pub per_shard: HashMap<usize, PickedZones>,
 }
@@ -570,8 +604,21 @@ pub async fn plan_with_rlte(
         return None;
     }
 
+    // The numeric planner orders ladder values as u64 and silently ignores everything else, the
+    // string planner compares text. A field whose ladders hold negative or fractional numbers
+    // (or numbers next to text) cannot be planned by either. Scan everything instead.
+    let kind = catalog.ladder_kind(&field);
+    if kind == LadderKind::Mixed {
+        return None;
+    }
+
     // Try numeric greedy first
     let plan_numeric = greedy_cutoff_numeric(&catalog, &field, asc, k, zone_size);
+    if plan_numeric.is_none() && kind == LadderKind::Unsigned {
+        // All zones together do not reach k rows: nothing can be pruned. (Falling through to the
+        // string planner would order the numbers lexicographically.)
+        return None;
+    }
     let (mut candidates, t_star_str, used_numeric) = if let Some((_t, candidates, t_star)) =
         plan_numeric
     {
